@@ -8,7 +8,7 @@ its return code, cursor, outputs and hook calls are compared with the Lean runti
 the machine exported from the same compilation; plus multi-byte random walks.
 A difference is a concrete failing (state, symbol, data) triple: the replay.
 """
-import sys, os, random, shutil, multiprocessing as mp
+import json, sys, os, random, shutil, multiprocessing as mp
 sys.path.insert(0, os.path.dirname(os.path.abspath(__file__)))
 import common
 from common import Check
@@ -164,6 +164,23 @@ def example_still_current():
 def main():
     ck = Check("C06", "proof")
     ck.lean_obligations("NmfuProps.C06", THEOREMS)
+    # the test emitted for one transition: mirror (condChecks) vs the real generator, and the theorem about the mirror
+    ck.lean_obligations("NmfuProps.C06Cond", ["Nmfu.C06_condition_is_membership", "Nmfu.runs_covers", "Nmfu.runChecks_test"])
+    import condgen
+    from modeldrv import Model
+    cm = Model()
+    cst, cbreaks, cfailing = condgen.run(cm, ck.seed, 600 if ck.tier == "quick" else 12000)
+    cm.close()
+    ck.coverage["condition_generator"] = cst
+    ck.obligations += cst["cases"]
+    ck.discharged += cst["mirror_agrees"]
+    for f in cfailing[:5]:
+        ck.report(f"condition/{f['length']}/{f['byte']}",
+                  f"the test emitted for a transition listing {len(f['values'])} values (collapsed-range length {f['length']}, collapsing {'on' if f['collapse'] else 'off'}) "
+                  f"{'holds of' if f['emitted_test_holds'] else 'does not hold of'} byte {f['byte']}, which the transition {'lists' if f['listed'] else 'does not list'}", f)
+    if cbreaks:
+        ck.broken_obligation(f"correspondence condgen: condChecks (NmfuModel/CondGen.lean) differs from CodegenCtx._generate_condition_for_transition on {len(cbreaks)} of {cst['cases']} value sets",
+                             json.dumps(cbreaks[:3])[:3000])
     cur, why = example_still_current()
     ck.coverage["example_machine_current"] = cur
     if not cur:
